@@ -10,6 +10,7 @@
    mrij <pstar> <p> <z> | mris <pstar> | d p z ; …                    -> p/q|nan
    tankcap cyl <d> <maxl> <level> | tankcap curve <maxl> <level> x:y,…-> p/q|nan
    wsa d e | pop avg R | pump q hs he eff rstep price                 -> …
+   popimp <lt|gt|le|ge|eq|ne> <arg1> <arg2> <pop>                     -> p/q
    netcost <default|T=k:v,…;P=…;V=…;U=…> | item ; …                   -> p/q   (default = the DOCUMENTED tables)
    ghg <default|k:v,…> | d l ; …                                      -> p/q
    pmax A B C eff                                                     -> float bits (decimal UInt64) -/
@@ -158,6 +159,12 @@ def handle (line : String) : String :=
     match population (← parseRat a) (← parseRat r) with
     | some n => some s!"{n}"
     | none => some "nan"
+  | ["popimp", op, a, b, p] => do
+    let a ← parseRat a; let b ← parseRat b
+    let m ← match op with
+      | "lt" => some (decide (a < b)) | "gt" => some (decide (a > b)) | "le" => some (decide (a ≤ b))
+      | "ge" => some (decide (a ≥ b)) | "eq" => some (decide (a = b)) | "ne" => some (decide (a ≠ b)) | _ => none
+    some (showRat (populationImpacted m (← parseRat p)))
   | ["pump", q, hs, he, eff, rstep, price] => do
     match pumpPower (← parseRat q) (← parseRat hs) (← parseRat he) (← parseRat eff) with
     | some p =>
